@@ -69,7 +69,7 @@ def recComponent : Component where
       | _, _ => (s, ["bad-op"])
     | _ => (s, ["bad-op"])
 
-/-- ops: `cfg interval=<ms>` | `writer` | `bind ssrc=` | `rtp ssrc= seq=` → `read ok|blocked` |
+/-- ops: `cfg interval=<ms> [skew=<ms>]` | `writer` | `bind ssrc=` | `rtp ssrc= seq=` → `read ok|blocked` |
 `adv ms=` → reports written | `close` → `closed released=<n>`. -/
 def intComponent : Component where
   σ := Option Icpt
@@ -81,6 +81,15 @@ def intComponent : Component where
       match getNat fs "interval" with
       | some ms => if 1 ≤ ms ∧ ms ≤ 100000 then (some { interval := (ms : Int) * 1000000 }, ["ok"]) else (s, ["bad-op"])
       | none => (s, ["bad-op"])
+    | none, ["cfg", _, _] =>
+      -- `skew=<ms>`: the configured clock (SenderNow) starts that much ahead of the clock that drives the ticker;
+      -- every time of the model is the configured clock's (kept inside NTP era 0)
+      match getNat fs "interval", getInt fs "skew" with
+      | some ms, some skew =>
+        if 1 ≤ ms ∧ ms ≤ 100000 ∧ -3000000000000 ≤ skew ∧ skew ≤ 1130000000000 then
+          (some { interval := (ms : Int) * 1000000, now := 946684800000000000 + skew * 1000000 }, ["ok"])
+        else (s, ["bad-op"])
+      | _, _ => (s, ["bad-op"])
     | some st, ["writer"] => (some st.bindWriter, [])
     | some st, ["bind", _] =>
       match getNat fs "ssrc" with
